@@ -408,5 +408,5 @@ def stages(tier):
         {"name": "grid", "kind": "enum", "batch": True, "gen": grid_gen, "run": grid_run,
          "shards": 16, "exhaustive": True},
         {"name": "hist", "kind": "hyp", "strategy": hist_strategy, "run": hist_run,
-         "examples": {"quick": 4000, "thorough": 400000}, "shards": 16},
+         "examples": {"quick": 12000, "thorough": 400000}, "shards": 16},
     ]
